@@ -14,7 +14,7 @@
 Require Import ZArith List Bool Reals Lra Lia.
 From Flocq Require Import Core.Raux Core.Generic_fmt Core.Zaux.
 Import ListNotations.
-From GLMV Require Import SemR Expr.
+From GLMV Require Import SemR Expr SemN.
 From GLMM Require Import IntFn Pack Common.
 From W Require Gen_C11 Gen_C11_consts P_C11_real P_C11_nan P_C11_round P_C11_consts.
 
